@@ -342,7 +342,7 @@ func cmdCheck(args []string) int {
 			}
 		}
 	}
-	if len(retry) > 0 && len(retry) <= 10 {
+	if len(retry) > 0 && len(retry) <= 10 && os.Getenv("GOVC_NORETRY") == "" {
 		ropt := dopt
 		ropt.TimeoutS = timeout * 2
 		ropt.Workers = 1
